@@ -207,3 +207,112 @@ pub fn scale_family(pattern: u32, n: usize, internal: Compression) -> Logical {
     l
 }
 pub const PATTERN_NAMES: [&str; 3] = ["dense-runs", "far-apart", "alternating-duplicates"];
+
+// ---------------------------------------------------------------------------------------------
+// window family: entry lists steered so the encoded root lands around (16257, 16384]
+// ---------------------------------------------------------------------------------------------
+use crate::spec::dir::SEntry;
+
+fn xs(s: &mut u64) -> u64 {
+    *s ^= *s >> 12;
+    *s ^= *s << 25;
+    *s ^= *s >> 27;
+    s.wrapping_mul(0x2545_F491_4F6C_DD1D)
+}
+
+/// family 0: dense small deltas; 1: far-apart ids (~11-byte entries); 2: mixed runs / back-references.
+/// Deterministic in (family, n): the list for n+1 extends the list for n.
+pub fn window_entries(family: u32, n: usize) -> Vec<SEntry> {
+    let mut s = 0x1234_5678_9ABC_DEF1u64 ^ u64::from(family);
+    let mut out: Vec<SEntry> = Vec::with_capacity(n);
+    let mut id = 0u64;
+    let mut off = 0u64;
+    for i in 0..n {
+        let r = xs(&mut s);
+        match family {
+            0 => {
+                let len = 1 + (r % 300) as u32;
+                out.push(SEntry::new(id, off, len, 1));
+                id += 1 + (r >> 20) % 3;
+                off += u64::from(len);
+            }
+            1 => {
+                let len = 1 + (r % 300) as u32;
+                out.push(SEntry::new(id, off, len, 1));
+                id += (1u64 << 30) + ((r >> 16) % (1u64 << 34));
+                off += u64::from(len);
+            }
+            _ => {
+                let len = 1 + (r % 200) as u32;
+                let run = 1 + ((r >> 12) % 4) as u32;
+                // every 5th entry refers back to an earlier content
+                if i % 5 == 4 && i > 10 {
+                    let j = ((r >> 24) as usize) % (i - 1);
+                    out.push(SEntry::new(id, out[j].offset, out[j].length, run));
+                } else {
+                    out.push(SEntry::new(id, off, len, run));
+                    off += u64::from(len);
+                }
+                id += u64::from(run) + (r >> 40) % 2 + if i % 5 == 3 { 1 } else { 0 };
+            }
+        }
+    }
+    out
+}
+
+/// logical archive whose written directory is exactly family 0/1 of `window_entries` (unique contents, no runs)
+pub fn window_logical(family: u32, n: usize, internal: Compression) -> Logical {
+    let es = window_entries(family, n);
+    let mut l = Logical::new(internal);
+    for (i, e) in es.iter().enumerate() {
+        let mut c = (i as u32).to_le_bytes().to_vec();
+        c.push(0xFE);
+        c.resize((e.length as usize).max(5), (i % 251) as u8);
+        l.tiles.insert(e.tile_id, c);
+    }
+    l
+}
+
+/// size in bytes of the library's serialisation of the full list (used only to steer n; not an oracle)
+pub fn lib_dir_size(es: &[SEntry], c: Compression) -> usize {
+    match super::util::dir_write_sync(es, c) {
+        super::util::Out::Ok(b) => b.len(),
+        _ => usize::MAX,
+    }
+}
+
+/// smallest n whose full-list encoding exceeds 16257 bytes (bisection; sizes are monotone up to codec noise)
+pub fn crossing(family: u32, c: Compression, make: &dyn Fn(u32, usize) -> Vec<SEntry>) -> usize {
+    let mut lo = 1usize;
+    let mut hi = 1024usize;
+    while lib_dir_size(&make(family, hi), c) <= 16257 {
+        lo = hi;
+        hi *= 2;
+        if hi > 1 << 22 {
+            return hi;
+        }
+    }
+    while hi - lo > 1 {
+        let mid = (lo + hi) / 2;
+        if lib_dir_size(&make(family, mid), c) <= 16257 {
+            lo = mid;
+        } else {
+            hi = mid;
+        }
+    }
+    hi
+}
+
+/// entries the writer must produce for a window_logical archive (contents are unique, min length 5)
+pub fn window_logical_entries(family: u32, n: usize) -> Vec<SEntry> {
+    let es = window_entries(family, n);
+    let mut off = 0u64;
+    es.iter()
+        .map(|e| {
+            let len = e.length.max(5);
+            let r = SEntry::new(e.tile_id, off, len, 1);
+            off += u64::from(len);
+            r
+        })
+        .collect()
+}
